@@ -1,11 +1,17 @@
 """C15 — consistent hashing agrees with Carbon and moves only the keys it must.
 
 1. TLC model-checks spec/HashRing.tla: every assignment of ring positions (collisions, ties, wrap),
-   every listing order, every add/remove history of a small node universe; named deviations
-   (bisect-right, sort by position only, stale ring, no wrap, modulo hashing) must violate.
-2. harness/ring drives real route.ConsistentHashing routes (100 replicas, real destinations on
-   refusing addresses, no spool): one name at a time, Flush() barrier, per-destination counter deltas,
-   plus the ring (hook VerifRing) and the destination list after every membership change.
+   every listing order, every add/remove/update-address history of a small node universe; named
+   deviations (bisect-right, sort by position only, stale ring, stale ring after an address update on
+   the same host, no wrap, modulo hashing) must violate.
+2. harness/ring drives real route.ConsistentHashing routes (100 replicas, no spool): destinations on
+   refusing addresses (a line is observed through the destination's drop counters after a Flush()
+   barrier) and on loopback listeners owned by the driver (a line is observed at the listener the
+   destination is configured for; sentinel barrier per connection).  Membership changes: Add,
+   DelDestination, and UpdateDestination(addr=...) to another instance on the same host, to another
+   host, to another port of the same (host, instance), and to an address that refuses (not taken over
+   by Destination.updateConn).  After every change the ring (hook VerifRing) and the destination list
+   are recorded, then every key is dispatched.
 3. Ring positions of every destination and of every key are computed independently by
    tools/carbon_ring.py (MD5 cannot be modelled) and enter spec/HashRingTrace.tla as data; TLC
    decides every ring, every lookup and every movement with HashRingOps.tla.
@@ -18,7 +24,8 @@ import carbon_ring  # noqa: E402
 
 LEVEL = "model_checking"
 INVS = ["TypeOK", "AgreesWithCarbon", "OrderIndependent", "ExactlyOne", "AddMovesOnlyToNew",
-        "RemoveMovesOnlyOwned", "MovesB"]
+        "RemoveMovesOnlyOwned", "UpdateMovesOnlyBetween", "MovesB"]
+STALE = {"AgreesWithCarbon", "ExactlyOne", "MovesB"}
 
 
 # ------------------------------------------------------------------ model checking
@@ -32,11 +39,11 @@ def model_check(ctx):
         ctx.tlc("HashRing", "HashRing_mc.cfg", consts=dict(c, Dev="none"), workers=6, timeout=3000)
     # non-vacuity: each deviation is rejected by the invariant it is about
     expect = dict(bisect_right={"AgreesWithCarbon"}, sort_pos_only={"AgreesWithCarbon", "OrderIndependent"},
-                  stale_ring={"AgreesWithCarbon", "ExactlyOne"}, no_wrap={"AgreesWithCarbon"},
-                  mod_n={"AddMovesOnlyToNew", "RemoveMovesOnlyOwned", "AgreesWithCarbon"})
+                  stale_ring=STALE, stale_ring_on_same_host=STALE, no_wrap={"AgreesWithCarbon"},
+                  mod_n={"AddMovesOnlyToNew", "RemoveMovesOnlyOwned", "UpdateMovesOnlyBetween", "AgreesWithCarbon"})
     caught = {}
     if ctx.quick():
-        expect = {k: expect[k] for k in ("bisect_right", "sort_pos_only")}
+        expect = {k: expect[k] for k in ("bisect_right", "sort_pos_only", "stale_ring_on_same_host")}
     for dev, invs in expect.items():
         r = ctx.tlc("HashRing", "HashRing_mc.cfg", consts=dict(Shape="n3", R=2, P=3, Dev=dev), workers=4,
                     expect_ok=False, count=False, timeout=1200)
@@ -45,12 +52,12 @@ def model_check(ctx):
                 dev, r["violated"], r["log"]))
         caught[dev] = r["violated"]
     # the movement invariants on their own (mod_n also breaks agreement with Carbon)
-    cfg = "SPECIFICATION Spec\nINVARIANTS AddMovesOnlyToNew RemoveMovesOnlyOwned\nCHECK_DEADLOCK FALSE\n"
+    cfg = "SPECIFICATION Spec\nINVARIANTS AddMovesOnlyToNew RemoveMovesOnlyOwned UpdateMovesOnlyBetween\nCHECK_DEADLOCK FALSE\n"
     with open(os.path.join(ctx.specdir(), "HashRing_moves.cfg"), "w") as f:
         f.write(cfg)
     r = ctx.tlc("HashRing", "HashRing_moves.cfg", consts=dict(Shape="n3", R=2, P=3, Dev="mod_n"), workers=4,
                 expect_ok=False, count=False, timeout=1200)
-    if r["violated"] not in ("AddMovesOnlyToNew", "RemoveMovesOnlyOwned"):
+    if r["violated"] not in ("AddMovesOnlyToNew", "RemoveMovesOnlyOwned", "UpdateMovesOnlyBetween"):
         raise Machinery("modulo hashing does not violate the minimal-movement invariants (vacuity); log %s" % r["log"])
     caught["mod_n(moves)"] = r["violated"]
     ctx.cov["deviations_rejected"] = caught
